@@ -24,7 +24,7 @@ def T(lean, cls, fn, how, binds, params, ret=None, ref=None, grid=None, guard=No
 
 
 SMALL = list(range(0, 40))
-LENS = sorted(set(list(range(0, 70)) + [127, 128, 129, 255, 256, 257, 511, 512, 513] + list(range(1000, 1030)) + [2047, 2048, 4095, 65535, 65536]))
+LENS = sorted(set(list(range(0, 70)) + [127, 128, 129, 255, 256, 257, 264, 280, 288, 511, 512, 513, 552, 560, 832] + list(range(1000, 1030)) + [2047, 2048, 4095, 65535, 65536]))
 MASKS = list(range(0, 17)) + [31, 32, 127, 128, 255, 256]
 LEVELS = list(range(0, 10))
 POW = sorted({max(0, (1 << k) + d) for k in range(0, 140) for d in (-1, 0, 1)} | {(1 << k) + d for k in (255, 256, 257, 1015, 1016) for d in (-1, 0)})
